@@ -8,6 +8,8 @@
 (* Behaviour of an exit when called with the exception in flight:          *)
 (*   falsy | truthy | raise (a new exception) | raisewh (a new exception   *)
 (*   only while one is in flight) | reraise (the very exception received)  *)
+(*   | push (registers one more callback on the stack being unwound: it    *)
+(*   runs next, in the same unwind -- callbacks are popped one at a time)  *)
 (*                                                                         *)
 (* History actions: Register, EnterFail (enter_context whose enter raises: *)
 (* nothing registered), PopAll, Leave(outcome) / Aclose = start an unwind, *)
@@ -24,7 +26,7 @@ EXTENDS Integers, Sequences, FiniteSets, TLC, Json, CSV
 CONSTANTS MaxEntries, MaxOps, EdgeFile
 
 Kinds == {"exit", "cb"}
-Behs == {"falsy", "truthy", "raise", "raisewh", "reraise"}
+Behs == {"falsy", "truthy", "raise", "raisewh", "reraise", "push"}
 BlockExc == 100                 \* the exception the with-block raised
 ExcOf(e) == 200 + e             \* the new exception raised by entry e
 
@@ -41,7 +43,7 @@ VARIABLES main,     \* entries of the stack the block was entered with (ids)
 vars == <<main, moved, popped, kind, beh, nent, ran, got, unw, outcome, nops, last>>
 View == <<main, moved, popped, kind, beh, nent, ran, got, unw, outcome, nops>>
 
-Ent == 1..MaxEntries
+Ent == 1..(2 * MaxEntries)      \* registered entries plus the callbacks pushed during unwinds
 NoUnw == [which |-> "none", todo |-> <<>>, all |-> <<>>, exc |-> 0, recv |-> 0, sup |-> FALSE, rer |-> FALSE]
 
 Init == /\ main = <<>> /\ moved = <<>> /\ popped = FALSE /\ nent = 0
@@ -94,15 +96,25 @@ RunExit ==
          b == beh[e]
          raises == b = "raise" \/ (b = "raisewh" /\ seen # 0) \/ (b = "reraise" /\ seen # 0)
          newx == IF b = "reraise" THEN seen ELSE ExcOf(e)
-         truthy == b = "truthy" /\ kind[e] # "cb" IN
+         truthy == b = "truthy" /\ kind[e] # "cb"
+         rest == SubSeq(unw.todo, 1, Len(unw.todo) - 1)
+         e2 == nent + 1                                     \* the callback a "push" exit registers
+         pos == CHOOSE j \in 1..Len(unw.all) : unw.all[j] = e IN
      /\ ran' = [ran EXCEPT ![e] = @ + 1]
      /\ got' = [got EXCEPT ![e] = seen]
-     /\ unw' = [unw EXCEPT !.todo = SubSeq(unw.todo, 1, Len(unw.todo) - 1),
+     /\ IF b = "push"
+        THEN /\ nent' = e2
+             /\ kind' = [kind EXCEPT ![e2] = "cb"] /\ beh' = [beh EXCEPT ![e2] = "falsy"]
+        ELSE UNCHANGED <<nent, kind, beh>>
+     /\ unw' = [unw EXCEPT !.todo = IF b = "push" THEN Append(rest, e2) ELSE rest,
+                           !.all = IF b = "push"
+                                   THEN SubSeq(unw.all, 1, pos - 1) \o <<e2>> \o SubSeq(unw.all, pos, Len(unw.all))
+                                   ELSE unw.all,
                            !.exc = IF raises THEN newx ELSE IF truthy THEN 0 ELSE x,
                            !.sup = IF raises THEN unw.sup ELSE IF truthy THEN TRUE ELSE unw.sup,
                            !.rer = IF raises THEN TRUE ELSE IF truthy THEN FALSE ELSE unw.rer]
      /\ last' = <<"exit", e, IF seen = 0 THEN "none" ELSE IF seen = BlockExc THEN "block" ELSE "new", "-">>
-  /\ UNCHANGED <<main, moved, popped, kind, beh, nent, outcome, nops>>
+  /\ UNCHANGED <<main, moved, popped, outcome, nops>>
 
 \* the loop is over: raise the exception in flight, or report suppression  [461-470]
 ResultOf(u) ==
@@ -132,6 +144,7 @@ AfterExit(e, x) ==
     [] beh[e] = "raise" -> ExcOf(e)
     [] beh[e] = "raisewh" -> IF seen # 0 THEN ExcOf(e) ELSE x
     [] beh[e] = "reraise" -> x
+    [] beh[e] = "push" -> x
 RECURSIVE Nested(_, _)
 Nested(stack, x) == IF stack = <<>> THEN x
                     ELSE Nested(SubSeq(stack, 1, Len(stack) - 1), AfterExit(stack[Len(stack)], x))
